@@ -77,8 +77,8 @@ def scenario(services=None, fail=(), **kw):
 
 
 def scen_key(sc):
-    return "svc=%s;cc=%d;v=%d;tun=%d;uni=%d;fail=%s" % (
-        "+".join(sc["services"]), sc["companion_creds"], sc["video"], sc["tunnel"], sc["unified"],
+    return "svc=%s;cc=%d;v=%d;tun=%d;uni=%d;txt=%d;fail=%s" % (
+        "+".join(sc["services"]), sc["companion_creds"], sc["video"], sc["tunnel"], sc["unified"], sc.get("txt", False),
         ".".join(map(str, sc["fail"])) or "-")
 
 
@@ -121,14 +121,17 @@ def all_scenarios(patches, rng=None, extra=0):
     SetupData of the queue failing; `extra` random ones with several failures."""
     out = native_scenarios()
     out += [scenario(S, video=False) for S in subsets() if "AirPlay" in S]
+    out += [scenario(S, txt=True) for S in subsets()]          # services announcing real TXT records
     out += failing_connect_scenarios()
     for cfg in path_configs():
         n = len(World(patches, scenario(**cfg)).built.queue)
         out.append(scenario(**cfg))
+        out.append(scenario(txt=True, **cfg))
         out += [scenario(fail=[k], **cfg) for k in range(n)]
     for _ in range(extra):
         cfg = dict(rng.choice(path_configs()))
         cfg["video"] = rng.chance(0.7)
+        cfg["txt"] = rng.chance(0.5)
         n = len(World(patches, scenario(**cfg)).built.queue)
         fail = [k for k in range(n) if rng.chance(0.35)]
         out.append(scenario(fail=fail, **cfg))
@@ -315,10 +318,10 @@ class World:
         return env
 
     # -- observation -------------------------------------------------------------------
-    def _args(self, iface, name):
+    def _args(self, iface, name, plain=False):
         import enum
 
-        env = self.env
+        env = None if plain else self.env
         fn = self.p.bases[iface].__dict__[name]
         args = []
         for prm in list(inspect.signature(fn).parameters.values())[1:]:
@@ -339,7 +342,53 @@ class World:
                 args.append(env["position"] if env else 1)
         return args
 
-    async def _call(self, iface, name):
+    def variants(self, iface, name):
+        """Argument variants of a member, one parameter changed at a time, taken from the
+        signature in pyatv.interface: every other value of an enum-typed parameter, a flipped
+        bool, a value for a parameter defaulting to None, another number.  [(label, kwargs)]"""
+        import dataclasses
+        import enum
+        import typing
+
+        key = (iface, name)
+        cache = self.p.__dict__.setdefault("_variants", {})
+        if key in cache:
+            return cache[key]
+        fn = self.p.bases[iface].__dict__[name]
+        out = []
+        if not isinstance(fn, property):
+            base = dict(zip([p.name for p in list(inspect.signature(fn).parameters.values())[1:]
+                             if p.kind not in (p.VAR_POSITIONAL, p.VAR_KEYWORD) and p.default is p.empty],
+                            self._args(iface, name, plain=True)))
+            for prm in list(inspect.signature(fn).parameters.values())[1:]:
+                if prm.kind in (prm.VAR_POSITIONAL, prm.VAR_KEYWORD, prm.POSITIONAL_ONLY):
+                    continue
+                ann, dflt = prm.annotation, prm.default
+                cands = [a for a in typing.get_args(ann) if a is not type(None)] if typing.get_origin(ann) is typing.Union else [ann]
+                cur = base.get(prm.name, dflt)
+                values = []
+                if isinstance(dflt, enum.Enum) or (isinstance(ann, type) and issubclass(ann, enum.Enum)):
+                    values = [v for v in (type(dflt) if isinstance(dflt, enum.Enum) else ann) if v != cur]
+                elif isinstance(dflt, bool):
+                    values = [not dflt]
+                elif dflt is None:
+                    c = cands[0] if cands and isinstance(cands[0], type) else None
+                    if c is not None and dataclasses.is_dataclass(c):
+                        values = [c()]
+                    elif c is float:
+                        values = [7.0]
+                    elif c is str:
+                        values = ["x"]
+                    else:
+                        values = [100]
+                elif isinstance(dflt, (int, float)):
+                    values = [dflt + 15]
+                for v in values:
+                    out.append(("%s=%s" % (prm.name, getattr(v, "name", v if not dataclasses.is_dataclass(v) else "given")), {prm.name: v}))
+        cache[key] = out
+        return out
+
+    async def _call(self, iface, name, override=None):
         from pyatv import exceptions
 
         log = self.p.log
@@ -350,7 +399,17 @@ class World:
             if isinstance(static, property):
                 getattr(fo, name)
             else:
-                res = getattr(fo, name)(*self._args(iface, name))
+                args, kwargs = self._args(iface, name), {}
+                if override:
+                    fn = self.p.bases[iface].__dict__[name]
+                    required = [p.name for p in list(inspect.signature(fn).parameters.values())[1:]
+                                if p.kind not in (p.VAR_POSITIONAL, p.VAR_KEYWORD) and p.default is p.empty]
+                    for k, v in override.items():
+                        if k in required and required.index(k) < len(args):
+                            args[required.index(k)] = v
+                        else:
+                            kwargs[k] = v
+                res = getattr(fo, name)(*args, **kwargs)
                 if inspect.isawaitable(res):
                     await res
         except exceptions.NotSupportedError:
@@ -363,16 +422,21 @@ class World:
             return "multi:" + "+".join("%s/%s.%s" % r for r in log)
         return log[0][0]
 
-    async def _table(self):
+    async def _table(self, variants):
         out = {}
         for iface in NINE:
             for name in self.p.members[iface]:
                 out[f"{iface}.{name}"] = await self._call(iface, name)
+                if variants:
+                    for label, override in self.variants(iface, name):
+                        out[f"{iface}.{name}[{label}]"] = await self._call(iface, name, override)
         return out
 
-    def table(self):
+    def table(self, variants=True):
+        """which protocol's instance executed each member, invoked through the device object with
+        default-style arguments and (variants) with every other value of its enum / optional parameters"""
         with warnings.catch_warnings(record=True):   # pyatv.support.deprecated re-enables the filter itself
-            return self.p.loop.run_until_complete(self._table())
+            return self.p.loop.run_until_complete(self._table(variants))
 
     def gate_open(self):
         from pyatv.const import FeatureName, FeatureState
@@ -423,9 +487,9 @@ def judge(ctx, world, holders, observed, case, kind):
     gate = None
     S = world.S
     for key, got in observed.items():
-        iface, name = key.split(".", 1)
+        iface, name = key.split("[")[0].split(".", 1)
         want = expected(world, holders.get(iface), iface, name)
-        if key == "Stream.play_url" and got == "!" and want != "!":
+        if key.split("[")[0] == "Stream.play_url" and got == "!" and want != "!":
             if gate is None:
                 gate = world.gate_open()
             if not gate:
@@ -479,7 +543,7 @@ def run_static(ctx, patches, scenarios, full_env):
                 if status != "ok":
                     ctx.disagree({"scenario": sc, "t": t}, status, "ok", where="takeover of all interfaces")
                     continue
-            table = world.table()
+            table = world.table(variants=pub is None)
             if release:
                 release()
             env = None if pub is None else {"publisher": pub[0], "volume": world.env["volume"]}
@@ -489,6 +553,7 @@ def run_static(ctx, patches, scenarios, full_env):
     for world, t, env, table in obs:
         S, sc = world.S, world.sc
         model = model_view(answers[f"table {set_bits(S)} {t or '-'} {1 if world.video else 0}"])
+        model = {k: model.get(k.split("[")[0]) for k in table}     # the model's routing does not depend on arguments
         case = {"kind": "call", "scenario": sc, "t": t, "env": env}
         if model != table:
             diff = {k: (table.get(k), model.get(k)) for k in set(table) | set(model) if table.get(k) != model.get(k)}
@@ -496,6 +561,12 @@ def run_static(ctx, patches, scenarios, full_env):
         ctx.validated(len(table))
         judge(ctx, world, {i: t for i in NINE}, table, case, "call")
         plain = next(p for p in TEXT_ORDER if p in S)
+        if env is not None:
+            # state-update rounds: one case per round (every member was invoked and judged above)
+            ctx.case([scen_key(sc), t, env["publisher"], "all-members"], True)
+            ctx.note("calls-after-state-update", len(table))
+            ctx.note("args:reused-from-state-update")
+            continue
         for key, got in table.items():
             nontrivial = got != plain
             ctx.case([scen_key(sc), t, env and env["publisher"], key], nontrivial,
@@ -598,7 +669,7 @@ def run_history(ctx, patches, sc, ops):
             else:
                 head = "no-token"
         holders = world.holders()
-        table = world.table()
+        table = world.table(variants=step % 2 == 0)
         obs.append((head, holders, table, dict(tracked)))
         multi = {i: h for i, h in holders.items() if "+" in h}
         case = {"kind": "history", "scenario": sc, "ops": ops, "step": step,
@@ -619,6 +690,8 @@ def compare_history(ctx, S, ops, obs, answers):
         m_head = " ".join(parts[:-2]) if len(parts) >= 3 else ans
         m_hold = parse_table(parts[-2]) if len(parts) >= 3 else None
         m_table = model_view(parts[-1]) if len(parts) >= 3 else None
+        if m_table is not None:
+            m_table = {k: m_table.get(k.split("[")[0]) for k in table}
         if (m_head, m_hold, m_table) != (head, holders, table):
             diff = None
             if m_table is not None and m_table != table:
